@@ -62,7 +62,7 @@ class MergeSuite(Suite):
             if first is None:
                 first = cells[0]
             h = [x.lower() for x in cells[0]]
-            cols = (h.index("score"), h.index("pep"), h.index("raw file"), h.index("ms/ms scan number"), h.index("modified sequence"))
+            cols = (h.index("score"), h.index("pep"), h.index("raw file"), (h.index("ms/ms scan number") if "ms/ms scan number" in h else h.index("scan number")), h.index("modified sequence"))
             files.append(cpair(cpair(*(cnat(c) for c in cols)), rrows(cells[1:])))
         t = clist(cpair(cstr(k), cstr(v)) for k, v in tab.items())
         return cpair(t, clist(pr), clist(cstr(c) for c in first), clist(files))
@@ -97,7 +97,8 @@ class MergeSuite(Suite):
         from .merge_common import _case
         ident = list(range(len(EV_COLS)))
         p0 = case["ev_files"][0].get("perm") or ident
-        exp = [[_case(EV_COLS[k], case["ev_files"][0]["header_case"]) for k in p0]]
+        names0 = ["Scan number" if (c == "MS/MS scan number" and case["ev_files"][0].get("msms_layout")) else c for c in EV_COLS]
+        exp = [[_case(names0[k], case["ev_files"][0]["header_case"]) for k in p0]]
         where = []           # per expected data row: positions of score and PEP in that row's own layout
         for f in case["ev_files"]:
             perm = f.get("perm") or ident
